@@ -9,5 +9,6 @@ INVARIANT ImgDefined
 INVARIANT UnionLaw
 INVARIANT SerConsistent
 INVARIANT RoundTripLaw
+INVARIANT DispatchMatchesKinds
 INVARIANT MembersNotRejected
 CHECK_DEADLOCK FALSE
